@@ -1015,6 +1015,40 @@ private:
                fdecl.get_outputs().end());
   }
 
+  static variable_t make_fresh_variable(const variable_t &v) {
+    using varname_t = typename variable_t::varname_t;
+    auto &vfac = const_cast<varname_t *>(&(v.name()))->get_var_factory();
+    return variable_t(vfac.get(), v.get_type());
+  }
+
+  // Return true if some variable of the callsite has the same name as
+  // a parameter of the callee, unless it is just that parameter
+  // passed (or returned) under its own name in its own position.
+  static bool callsite_and_callee_names_clash(const callsite_t &cs,
+                                              const fdecl_t &fdecl) {
+    auto is_in = [](const variable_t &v, const std::vector<variable_t> &vs) {
+      return std::find(vs.begin(), vs.end(), v) != vs.end();
+    };
+    for (unsigned i = 0, e = fdecl.get_inputs().size(); i < e; ++i) {
+      const variable_t &formal = fdecl.get_inputs()[i];
+      const variable_t &actual = cs.get_args()[i];
+      if (is_in(formal, cs.get_lhs()) ||
+          (!(formal == actual) && is_in(formal, cs.get_args())) ||
+          is_in(actual, fdecl.get_outputs())) {
+        return true;
+      }
+    }
+    for (unsigned i = 0, e = fdecl.get_outputs().size(); i < e; ++i) {
+      const variable_t &formal = fdecl.get_outputs()[i];
+      const variable_t &actual = cs.get_lhs()[i];
+      if (!(formal == actual) &&
+          (is_in(formal, cs.get_lhs()) || is_in(actual, fdecl.get_outputs()))) {
+        return true;
+      }
+    }
+    return false;
+  }
+
   /**
    *  Restrict operation.
    *
@@ -1035,9 +1069,33 @@ private:
     // propagate from actual to formal parameters
     CRAB_LOG("inter-restrict",
              errs() << "Unifying formal and actual parameters\n";);
+    // The unification is a parallel assignment. If a formal parameter
+    // has the same name as an actual parameter passed in another
+    // position then the actual parameters are first copied into
+    // fresh variables so that they are read before being overwritten.
+    std::vector<variable_t> actuals(cs.get_args().begin(), cs.get_args().end());
+    bool formal_is_other_actual = false;
     for (unsigned i = 0, e = fdecl.get_inputs().size(); i < e; ++i) {
       const variable_t &formal = fdecl.get_inputs()[i];
-      const variable_t &actual = cs.get_args()[i];
+      if (!(formal == actuals[i]) &&
+          std::find(actuals.begin(), actuals.end(), formal) != actuals.end()) {
+        formal_is_other_actual = true;
+      }
+    }
+    if (formal_is_other_actual) {
+      for (unsigned i = 0, e = fdecl.get_inputs().size(); i < e; ++i) {
+        const variable_t &formal = fdecl.get_inputs()[i];
+        if (!(formal == actuals[i])) {
+          variable_t fresh_actual = make_fresh_variable(formal);
+          inter_transformer_helpers<AbsDom>::unify(caller_dom, fresh_actual,
+                                                   actuals[i]);
+          actuals[i] = fresh_actual;
+        }
+      }
+    }
+    for (unsigned i = 0, e = fdecl.get_inputs().size(); i < e; ++i) {
+      const variable_t &formal = fdecl.get_inputs()[i];
+      const variable_t &actual = actuals[i];
       if (!(formal == actual)) {
         CRAB_LOG("inter-restrict",
                  errs() << "\t" << formal << ":" << formal.get_type()
@@ -1122,6 +1180,40 @@ private:
              crab::outs() << "[INTER] Computing continuation for " << cs << "\n"
                           << "\tCaller before the call=" << caller_dom << "\n"
                           << "\tCallee exit=" << sum_out_dom << "\n";);
+
+    if (callsite_and_callee_names_clash(cs, fdecl)) {
+      // The wiring below assigns callsite variables one by one from
+      // the callee parameters. If they share names then a parameter
+      // could be overwritten before being read, so the callee
+      // parameters are first renamed apart.
+      std::vector<variable_t> inputs, outputs, fresh_vars;
+      for (auto const &v : fdecl.get_inputs()) {
+        inputs.push_back(make_fresh_variable(v));
+      }
+      for (auto const &v : fdecl.get_outputs()) {
+        outputs.push_back(make_fresh_variable(v));
+      }
+      fresh_vars.insert(fresh_vars.end(), inputs.begin(), inputs.end());
+      fresh_vars.insert(fresh_vars.end(), outputs.begin(), outputs.end());
+      // sum_out_variables is fdecl.get_inputs() followed by fdecl.get_outputs()
+      sum_out_dom.rename(sum_out_variables, fresh_vars);
+      caller_dom.forget(cs.get_lhs());
+      for (unsigned i = 0, e = outputs.size(); i < e; ++i) {
+        inter_transformer_helpers<AbsDom>::unify(sum_out_dom, cs.get_lhs()[i],
+                                                 outputs[i]);
+      }
+      for (unsigned i = 0, e = inputs.size(); i < e; ++i) {
+        const variable_t &in_actual = cs.get_args()[i];
+        if (std::find(cs.get_lhs().begin(), cs.get_lhs().end(), in_actual) ==
+            cs.get_lhs().end()) {
+          inter_transformer_helpers<AbsDom>::unify(sum_out_dom, in_actual,
+                                                   inputs[i]);
+        }
+      }
+      sum_out_dom.forget(fresh_vars);
+      caller_dom &= sum_out_dom;
+      return caller_dom;
+    }
 
     // make sure **output** actual parameters are unconstrained
     caller_dom.forget(cs.get_lhs());
